@@ -4,6 +4,7 @@ mod c09;
 mod c10;
 mod c12;
 mod c12n;
+mod nodea;
 mod nodeg;
 mod c13;
 mod c14;
@@ -25,6 +26,7 @@ fn main() {
     let mode = args.extra.get("mode").cloned().unwrap_or_default();
     match (args.prop.as_str(), mode.as_str()) {
         (_, "node-gossip") => nodeg::run(&args, &mut rep),
+        (_, "node-absurd") => nodea::run(&args, &mut rep),
         ("C13", _) => c13::run(&args, &mut rep),
         ("C14", _) => c14::run(&args, &mut rep),
         ("C15", _) => c15::run(&args, &mut rep),
